@@ -2,19 +2,24 @@ import Arimaa.Props.C11
 import Arimaa.Lemmas.RsAgreeGen
 import Arimaa.Lemmas.RsAgreeStep
 import Arimaa.Lemmas.RsAgreeResult
+import Arimaa.Gen.Bridge.GameState_is_terminal
+import Arimaa.Gen.Bridge.GameState_take_action
+import Arimaa.Gen.Bridge.GameState_valid_actions_no_rep
 
 /-!
 # C11 — the property at the level of the REGENERATED code
 
 `Gen/Rs.lean` is written by `tools/rs2lean2.py` from the current text of engine.rs / zobrist.rs on every
-run; `Lemmas/RsAgree*.lean` prove that each regenerated function equals
-`Res.guard (hand panic guard) (hand total function)`.  This file puts the agreement theorems of the
-functions C11 rests on into the property's proof closure and restates them as one named obligation
-(`C11_code_agrees`), plus corollaries that speak about the regenerated functions directly.  A change of
-the Rust text of one of these functions breaks an obligation here without any test having to find the input.
+run.  `Gen/Bridge/<fn>.lean` (generated) proves `@Rs.fn = @RsBase.fn` — the current text against the
+baseline text — and `Lemmas/RsAgree*.lean` prove that each baseline function equals
+`Res.guard (hand panic guard) (hand total function)`.  This file puts both, for the functions C11 rests
+on, into the property's proof closure and restates them as one named obligation (`C11_code_agrees`) about
+the CURRENT functions, plus corollaries that speak about them directly.  A change of the Rust text of one
+of these functions that alters behaviour breaks an obligation here without any test having to find the input.
+(written by tools/mkrprops.py)
 -/
 namespace Arimaa
-open Gen GameState Arimaa.Gen.Rs Arimaa.Rt
+open Gen GameState Arimaa.Gen.Rs Arimaa.Rt Arimaa.Gen.Bridge
 
 theorem C11_value_of_ok {α : Type} {x : Res α} {p : Bool} {v w : α} (h : x = Res.guard p v) (hx : x = .ok w) :
     p = false ∧ w = v := by
@@ -22,12 +27,14 @@ theorem C11_value_of_ok {α : Type} {x : Res α} {p : Bool} {v w : α} (h : x = 
   obtain ⟨hp, hv⟩ := Res.guard_eq_ok.mp hx
   exact ⟨hp, hv.symm⟩
 
-/-- the agreement theorems C11 rests on, as one obligation -/
+/-- the agreement theorems C11 rests on, about the CURRENT functions, as one obligation -/
 theorem C11_code_agrees :
     (∀ s : GameState, GameState_valid_actions_no_rep s = Res.guard s.validActionsNoRepPanics s.validActionsNoRep) ∧
     (∀ (s : GameState) (a : Action), GameState_take_action s a = Res.guard (s.takeActionPanics a) (s.takeAction a)) ∧
     (∀ s : GameState, GameState_is_terminal s = Res.guard s.isTerminalPanics s.isTerminal) :=
-  ⟨RsAgree.valid_actions_no_rep_direct, RsAgree.take_action_eq, RsAgree.is_terminal_eq⟩
+  ⟨(by simp only [bridge_GameState_valid_actions_no_rep]; exact RsAgree.valid_actions_no_rep_direct),
+   (by simp only [bridge_GameState_take_action]; exact RsAgree.take_action_eq),
+   (by simp only [bridge_GameState_is_terminal]; exact RsAgree.is_terminal_eq)⟩
 
 
 end Arimaa
